@@ -685,7 +685,9 @@ func runSdScenario(t *testing.T, sc sdScenario, store *sdRecStore, st *sdStats) 
 				if len(plan) == 0 && (sdClosed(s.assoc[0]) != sdClosed(s.assoc[1])) && s.now() > limit-60*time.Second {
 					break
 				}
-				s.advance(250 * time.Millisecond)
+				// 137 ms: no timer of the package (200 ms, 1 s, 2 s, ...) armed at a multiple of the step expires exactly
+				// at a later multiple, so a timer never races the harness's own wake-up inside the bubble
+				s.advance(137 * time.Millisecond)
 				s.readAll()
 				sdProbeWrites(s, st, &probed)
 				continue
@@ -796,6 +798,9 @@ func runSdScenario(t *testing.T, sc sdScenario, store *sdRecStore, st *sdStats) 
 					}
 				}
 			}
+		}
+		if os.Getenv("VERIF_SD_LOG") != "" {
+			fmt.Printf("SDRUN %s decisions=%d t=%v\n", sc.label(), decisions, s.now())
 		}
 		st.mu.Lock()
 		st.runs++
